@@ -43,6 +43,12 @@ T={
 "seed4-d-fq4inv":("Fq4::inverse fast path when the norm to Fq2 lies in Fq: scales by 1/n without conjugating","Fq4 elements with c1 != 0 and a real norm (density 1/q; every Fq4-unitary conj(y)/y; (1+u)+(2+u)v), and Fq12 unitary non-cyclotomic elements through Fq12::inverse"),
 "seed4-e-zminus1":("adder helper z_powers(z) returns (z^2, z^2) when z^2 == 1: z^3 = +1 for z = -1","an addition operand whose Jacobian z is exactly -1 (lambda = -1 rescaling, or the z = x2 - x1 left by the affine adder) added to an independent point"),
 "seed4-f-fromstr":("from_str fast path on plain 256-bit integers for strings of at most 78 digits (should be 77)","78-digit strings whose value is >= 2^256 (e.g. the decimal string of 2^256, '9' x 78): (n mod 2^256) mod p"),
+"seed5-a-prepared-identity":("two edits: the affine adder returns the canonical zero() for opposite points, and the rewritten G2Prepared::miller_loop drops the g1.is_zero() guard of fix F5","a G1 identity stored as (x,y,0) with x != 0 that does not come from the affine adder (mixed-normalisation a + (-a), set_z(0), new(x,y,0)) through fast_pairing / G2Prepared::pairing"),
+"seed5-b-normalize-eq":("two cooperating sites: normalize() rescales in place and leaves the identity as (0,0,0); == drops the 'other.is_zero() -> false' guard","a non-identity P compared with an identity stored as (0,0,0) on the right: P == O' is true (asymmetric, non-transitive ==)"),
+"seed5-c-subassign-ref":("shared operator macro: SubAssign<&T> computes rhs - self","the single operator form a -= &b on the public Fr, Fq, Fq2 (no other form, no internal user)"),
+"seed5-d-g2-compressed-129":("de-duplicated tagged decoders: G2::from_compressed reads x through a 64-byte window and loses its implicit length barrier","a 129-byte 0x04 || x || <anything> string fed to G2::from_compressed (cross-format): accepted, y bytes ignored"),
+"seed5-e-fq12-toslice":("Fq12::to_slice written as a loop that skips zero Fq4 blocks but advances the offset only for non-zero ones","elements with a zero Fq4 block before a non-zero one: on Gt exactly the identity (Gt::one(), g*g^-1, e(O,Q)) serialises with the 01 at byte 127"),
+"seed5-f-interpret-assert":("from_slice's wide arm routed through the public interpret wrappers, whose new 'remainder is canonical' debug_assert was copied into Fq with Fr's modulus","Fq wide conversions (33..=64 bytes, interpret) whose remainder lies in [r, q): panic in builds with debug assertions only"),
 "seed2-C17":("Fq12::pow squares with a Granger-Scott cyclotomic squaring","pow(x, e >= 2) on any non-cyclotomic element; pairings only ever feed cyclotomic bases"),
 }
 for k,(s,n) in T.items():
